@@ -1273,6 +1273,28 @@ static void case_dispatch(vh_rng *r, const char *method)
 		wev[i] = haswr[i] ? event_new(base, p[1], EV_WRITE, e2_write_cb, (void *)(intptr_t)i) : NULL;
 		if (haswr[i]) { nslots++; if (p[1] > maxfd) maxfd = p[1]; }
 	}
+	if (!strcmp(method, "select") && n > 0 && vh_chance(r, 1, 3)) {
+		/* an add that would grow the fd sets fails for lack of memory: it must leave the tables as they were (the
+		 * dispatches below draw their starting descriptor from them) */
+		int hp[2];
+		if (!__real_pipe2(hp, O_NONBLOCK | O_CLOEXEC)) {
+			int hi = fcntl(hp[0], F_DUPFD, (maxfd / 64 + 1) * 64 + (int)vh_below(r, 130)), k2;
+			if (hi >= 0 && hi < 1000) {
+				for (k2 = 1; k2 <= 6; k2++) {
+					struct event *he = event_new(base, hi, EV_READ | EV_PERSIST, e2_read_cb, (void *)(intptr_t)(E2E_MAX - 1));
+					int rc;
+					if (!he) break;
+					mf_arm(k2); rc = event_add(he, NULL); mf_arm(0);
+					vh_stat(rc ? "select_add_failed_by_injected_oom" : "select_add_survived_injected_oom");
+					if (rc == 0) { event_del(he); if (hi > selmax) selmax = hi; if (hi > maxfd) maxfd = hi; }
+					event_free(he);
+					if (rc == 0) break;      /* the tables have grown now: nothing left to fail */
+				}
+			}
+			if (hi >= 0) __real_close(hi);
+			__real_close(hp[0]); __real_close(hp[1]);
+		}
+	}
 	for (round = 0; round < rounds && n > 0; round++) {
 		int ready[E2E_MAX], wready[E2E_MAX], nready = 0, range, k;
 		uint32_t target, div, start, after;
@@ -1431,14 +1453,16 @@ static void case_group(vh_rng *r)
 {
 	struct event_base *base = event_base_new();
 	struct ev_token_bucket_cfg *cfg;
-	struct bufferevent_rate_limit_group *g;
+	struct bufferevent_rate_limit_group *g, *g2;
 	struct bufferevent *bev[16][2];
-	int member[16], n = 16, i, round, nm = 0;
+	int member[16], other[16], n = 16, i, round, nm = 0;
 	struct timeval tick = { 1, 0 };
 	if (!base) return;
 	cfg = ev_token_bucket_cfg_new(1000, 1000, 1000, 1000, &tick);
 	g = bufferevent_rate_limit_group_new(base, cfg);
+	g2 = bufferevent_rate_limit_group_new(base, cfg);   /* members also leave by being moved straight into another group */
 	for (i = 0; i < n; i++) {
+		other[i] = 0;
 		bufferevent_pair_new(base, 0, bev[i]);
 		bufferevent_enable(bev[i][0], EV_READ | EV_WRITE);
 		member[i] = 0;
@@ -1451,8 +1475,12 @@ static void case_group(vh_rng *r)
 		/* adjust membership to `want` members, random choice of who */
 		while (nm != want) {
 			i = (int)vh_below(r, 16);
-			if (nm < want && !member[i]) { if (bufferevent_add_to_rate_limit_group(bev[i][0], g) == 0) { member[i] = 1; nm++; } }
-			else if (nm > want && member[i]) { bufferevent_remove_from_rate_limit_group(bev[i][0]); member[i] = 0; nm--; }
+			if (nm < want && !member[i]) { if (bufferevent_add_to_rate_limit_group(bev[i][0], g) == 0) { member[i] = 1; other[i] = 0; nm++; } }
+			else if (nm > want && member[i]) {
+				if (g2 && vh_chance(r, 1, 2)) { if (bufferevent_add_to_rate_limit_group(bev[i][0], g2) == 0) { other[i] = 1; vh_stat("group_members_moved_to_other_group"); } else continue; }
+				else bufferevent_remove_from_rate_limit_group(bev[i][0]);
+				member[i] = 0; nm--;
+			}
 		}
 		/* exhaust the group bucket: every member must be suspended */
 		lim = wr ? bufferevent_rate_limit_group_get_write_limit(g) : bufferevent_rate_limit_group_get_read_limit(g);
@@ -1492,8 +1520,9 @@ static void case_group(vh_rng *r)
 		vh_sample(1, "{\"op\":\"group-unsuspend\",\"members\":%d,\"weakrand_state\":%u,\"raw_next\":%u,\"draws\":%ld}", nm, start, target, draws);
 		vh_stat("cases");
 	}
-	for (i = 0; i < n; i++) { if (member[i]) bufferevent_remove_from_rate_limit_group(bev[i][0]); bufferevent_free(bev[i][0]); bufferevent_free(bev[i][1]); }
+	for (i = 0; i < n; i++) { if (member[i] || other[i]) bufferevent_remove_from_rate_limit_group(bev[i][0]); bufferevent_free(bev[i][0]); bufferevent_free(bev[i][1]); }
 	bufferevent_rate_limit_group_free(g);
+	if (g2) bufferevent_rate_limit_group_free(g2);
 	ev_token_bucket_cfg_free(cfg);
 	event_base_loop(base, EVLOOP_NONBLOCK);
 	event_base_free(base);
@@ -1505,6 +1534,7 @@ int main(int argc, char **argv)
 	long idx; vh_rng r;
 	vh_init(argc, argv);
 	signal(SIGALRM, on_watchdog);
+	if (mode_is("select")) mf_install();   /* allocation faults for the select tables (seed C46-4) */
 	while (vh_next_case(&idx, &r)) {
 		alarm(600);
 		if (mode_is("ntop4")) case_ntop4_block(idx * (vh_opt.n1 > 0 ? vh_opt.n1 : 1) + vh_opt.n2);
